@@ -17,6 +17,8 @@
 //!              fr:a/b size:n wait:n|max perm:n wtype:time|count wdur:n min:n slow:n sr:a/b name:x
 //!              lis:tr|slow|permitted|rejected|success|failure   (on_state_transition — logs `transition a b` —, on_slow_call —
 //!              meta line `#slow <ticks>` —, on_call_permitted, … : listeners that do nothing)
+//!              lis:trs  an `on_state_transition` listener that ALSO reads `state_sync()` of the breaker it is called for, inside
+//!                      its callback, and logs `transition a b sync=<what it read>` (classic header: `listen=2`)
 //!              cls:k   `failure_classifier(..)` (k as the header's `cls`: 0 errors, 1 only error kind 1, 2 errors + odd tags)
 //!              clsr:k  `classify_response(..)`: the wrapped service then has `Error = Infallible` and answers
 //!                      `Ok(Result<Resp, IErr>)` (errors encoded in the response); at most one `clsr`, and no `cls`, per chain
@@ -61,6 +63,39 @@ use tower_resilience_circuitbreaker::{
 use tower_resilience_core::HealthTriggerable;
 
 type Services = Rc<RefCell<BTreeMap<u64, One>>>;
+
+/// What a listener can do from inside its callback: read the lock-free view of the breaker it was called for. The listener is
+/// registered on the builder, before any service exists, and is shared by every service made from the layer: `PEEK[k]` reads
+/// `state_sync()` of service k, `CUR_SVC` is the service on whose behalf the code that is running now was entered (set by
+/// every entry point of the adapter and by every poll of a call future). Statics, not thread-locals: the tasks of the health
+/// triggers run on a helper thread.
+static PEEK: Mutex<BTreeMap<u64, Box<dyn Fn() -> CircuitState + Send + Sync>>> = Mutex::new(BTreeMap::new());
+static CUR_SVC: std::sync::atomic::AtomicU64 = std::sync::atomic::AtomicU64::new(0);
+
+fn enter_svc(k: u64) {
+    CUR_SVC.store(k, std::sync::atomic::Ordering::SeqCst);
+}
+
+fn peek_sync() -> &'static str {
+    let k = CUR_SVC.load(std::sync::atomic::Ordering::SeqCst);
+    match PEEK.lock().unwrap_or_else(|e| e.into_inner()).get(&k) {
+        Some(f) => st(f()),
+        None => "?",
+    }
+}
+
+/// the call future of a request made on service k: whatever it does when polled, it does on behalf of service k
+struct InSvc {
+    k: u64,
+    fut: CallFut,
+}
+impl Future for InSvc {
+    type Output = String;
+    fn poll(mut self: Pin<&mut Self>, cx: &mut Context<'_>) -> Poll<String> {
+        enter_svc(self.k);
+        self.fut.as_mut().poll(cx)
+    }
+}
 
 pub struct Adapter {
     svcs: Services,
@@ -343,6 +378,7 @@ macro_rules! request_on {
 /// when the first request arrives, until then the operator acts on the plain breaker. Whatever the order, there is ONE
 /// breaker per service: the fallback service shares the state of the breaker it was made from.
 fn one<S, C, Rsp, E>(
+    k: u64,
     plain: CircuitBreaker<S, C>,
     gate: GateCtl,
     fallback: bool,
@@ -358,6 +394,11 @@ where
     E: Send + Sync + 'static,
 {
     let tasks = Tasks::default();
+    {
+        // the fallback variant made from `plain` later shares its lock-free view
+        let viewer = plain.clone();
+        PEEK.lock().unwrap_or_else(|e| e.into_inner()).insert(k, Box::new(move || viewer.state_sync()));
+    }
     if !fallback {
         let call = {
             let svc = plain.clone();
@@ -467,6 +508,7 @@ fn plain_setter<C>(b: Bld<C>, item: &str) -> Bld<C> {
         "name" => b.name(v),
         "lis" => match v {
             "tr" => b.on_state_transition(|from, to| log(format!("transition {} {}", st(from), st(to)))),
+            "trs" => b.on_state_transition(|from, to| log(format!("transition {} {} sync={}", st(from), st(to), peek_sync()))),
             "slow" => b.on_slow_call(|d| log_raw(format!("#slow {}", d.as_nanos() as u64 / tick_ns().max(1)))),
             "permitted" => b.on_call_permitted(|_| {}),
             "rejected" => b.on_call_rejected(|| {}),
@@ -491,8 +533,10 @@ fn classic_chain(kv: &Kv, all: bool) -> Vec<String> {
     put("wait", "wait", Some("1000"));
     put("permitted", "perm", Some("1"));
     drop(put);
-    if kv.u64("listen", 1) != 0 {
-        v.push("lis:tr".into());
+    match kv.u64("listen", 1) {
+        0 => {}
+        2 => v.push("lis:trs".into()),
+        _ => v.push("lis:tr".into()),
     }
     if kv.str("wtype", "count") == "time" {
         v.push("wtype:time".into());
@@ -567,7 +611,7 @@ where
     let make: Rc<dyn Fn(u64) -> One> = Rc::new(move |k: u64| -> One {
         let gate = GateCtl::default();
         let inner = wrap(Gate { inner: Inner::new(), ctl: gate.clone() });
-        one(mk(k, inner), gate, fallback, early, fbwrap, render)
+        one(k, mk(k, inner), gate, fallback, early, fbwrap, render)
     });
     let svcs: Services = Rc::new(RefCell::new(BTreeMap::new()));
     svcs.borrow_mut().insert(0, make(0));
@@ -582,6 +626,8 @@ enum Fam {
 impl Adapter {
     pub fn new(kv: &Kv) -> Adapter {
         FB.lock().unwrap_or_else(|e| e.into_inner()).clear();
+        PEEK.lock().unwrap_or_else(|e| e.into_inner()).clear();
+        enter_svc(0);
         let items: Vec<String> = match kv.get("chain") {
             Some(ch) => ch.split(',').filter(|x| !x.is_empty() && *x != "-").map(|x| x.to_string()).collect(),
             None => classic_chain(kv, kv.get("preset").is_none()),
@@ -624,6 +670,7 @@ impl Adapter {
     }
 
     fn with<R>(&self, k: u64, f: impl FnOnce(&mut One) -> R) -> R {
+        enter_svc(k);
         let fresh = if self.svcs.borrow().contains_key(&k) { None } else { Some((self.make)(k)) };
         let mut m = self.svcs.borrow_mut();
         if let Some(o) = fresh {
@@ -644,7 +691,15 @@ fn request(svcs: &Services, make: &Rc<dyn Fn(u64) -> One>, c: usize, kv: &Kv) ->
         m.insert(k, o);
     }
     let one = m.get_mut(&k).expect("service");
-    (one.call)(Req::new(c, kv), kv.opt_u64("h"))
+    enter_svc(k);
+    (one.call)(Req::new(c, kv), kv.opt_u64("h")).map(|fut| Box::pin(InSvc { k, fut }) as CallFut)
+}
+
+impl Drop for Adapter {
+    fn drop(&mut self) {
+        // the viewers hold clones of the services
+        PEEK.lock().unwrap_or_else(|e| e.into_inner()).clear();
+    }
 }
 
 fn suffix(kv: &Kv) -> String {
